@@ -1,5 +1,8 @@
 import DarkluaModel.C07.Model
 import DarkluaModel.Shared.Run
+import DarkluaModel.Shared.VisitorSound
+import DarkluaModel.Rules.Witness
+import DarkluaModel.C08.Thm
 /-!
 # C06 — the Luau-lowering rules preserve program behaviour: property theorems (local lemmas)
 
@@ -8,6 +11,7 @@ environments, states). Each theorem says that the node a hook of a rule model (`
 the definitions the driver executes and the harness compares with the real `Rule::process`)
 returns has EXACTLY the denotation of the node it was given.
 -/
+set_option linter.unusedSimpArgs false
 namespace DarkluaModel.C06
 open Sem DarkluaModel.Rules
 
@@ -67,5 +71,632 @@ theorem ifexpr_and_or_exact (c r e : Expr)
       simp [Res.bind, first, ht']
   | err v σ1 => simp [Res.bind]
   | timeout => simp [Res.bind]
+
+
+/-! ## whole-rule theorems through the generic lifting theorem (`Shared/VisitorSound.lean`) -/
+
+theorem hooksExact_make_assignment_local : HooksExact MakeAssignmentLocal.processor where
+  stmtNode := fun st s N call ρ k env σ => make_assignment_local_hook_exact call ρ k env st s σ
+
+/-- `make_assignment_local` as a WHOLE (every `const` of the program, in any position, closures
+included): the observable outcome — returned values, raised error, external-call trace — of every
+program is preserved, at every call level, for every number system / oracle / extern set. -/
+theorem rule_refines_make_assignment_local (b : Block) {N : NumOps} (ρ : ExtOracle N) (n : Nat)
+    (externs : List String) :
+    runProgram ρ n externs (MakeAssignmentLocal.apply b) = runProgram ρ n externs b :=
+  Visitor.runDefault_refines hooksExact_make_assignment_local b () ρ n externs
+
+theorem number_node_id (e : Expr) (s : Unit) : ConvertLuauNumber.node e s = (e, s) := by
+  cases e <;> rfl
+
+theorem hooksExact_convert_luau_number : HooksExact ConvertLuauNumber.processor where
+  node := fun e s => by
+    show EqE e (ConvertLuauNumber.node e s).1 ∧ EqT e (ConvertLuauNumber.node e s).1
+    rw [number_node_id]; exact ⟨EqE.refl _, EqT.refl _⟩
+
+/-- `convert_luau_number` as a whole preserves the observable outcome of every program (it is the
+identity on the semantic AST: literals carry their value). -/
+theorem rule_refines_convert_luau_number (b : Block) {N : NumOps} (ρ : ExtOracle N) (n : Nat)
+    (externs : List String) :
+    runProgram ρ n externs (ConvertLuauNumber.apply b) = runProgram ρ n externs b :=
+  Visitor.runDefault_refines hooksExact_convert_luau_number b () ρ n externs
+
+
+/-! ## `remove_if_expression` -/
+
+open Rules.Witness in
+/-- projection used to compare concrete evaluations in the kernel: the first returned value when it is a string -/
+def firstStr : Res unitOps (List (Val unitOps)) → Option (List UInt8)
+  | .ok (.str s :: _) _ => some s
+  | _ => none
+
+/-- the full claim: for every sound truthiness oracle, the lowered expression returns what the
+if-expression returns -/
+def ifexpr_full : Prop :=
+  ∀ (truthy : Expr → Bool),
+    (∀ r, truthy r = true → ∀ (N : NumOps) (call : CallFn N) (ρ : ExtOracle N) (k : Nat) (env : Env N) σ vs σ',
+      evalE call ρ k env r σ = .ok vs σ' → (first vs).truthy = true) →
+  ∀ (e : Expr) (N : NumOps) (call : CallFn N) (ρ : ExtOracle N) (k : Nat) (env : Env N) (σ σ' : State N)
+    (vs : List (Val N)), evalE call ρ k env e σ = .ok vs σ' →
+    ∃ σ'', evalE call ρ k env (RemoveIfExpression.processExpression truthy e) σ = .ok vs σ''
+
+/-- the witness of finding F25: `if false then "a" elseif true then "b" elseif true then "c" else "d"` -/
+def f25Witness : Expr := .ifx .false (.str [97]) [(.true, .str [98]), (.true, .str [99])] (.str [100])
+
+def strTruthy : Expr → Bool
+  | .str _ => true
+  | _ => false
+
+open Rules.Witness in
+/-- **F25**: the full claim is false — with two `elseif` branches the rule tests them in reverse
+order: the witness evaluates to `"b"`, its lowering `false and "a" or (true and "c" or (true and "b" or "d"))` to `"c"`. -/
+theorem ifexpr_full_false : ¬ ifexpr_full := by
+  intro hfull
+  have hsound : ∀ r, strTruthy r = true → ∀ (N : NumOps) (call : CallFn N) (ρ : ExtOracle N) (k : Nat) (env : Env N)
+      σ vs σ', evalE call ρ k env r σ = .ok vs σ' → (first vs).truthy = true := by
+    intro r hr N call ρ k env σ vs σ' h
+    cases r <;> simp [strTruthy] at hr
+    simp only [evalE, Res.ok.injEq] at h
+    rw [← h.1]; rfl
+  have h1 : firstStr (evalE call0 ρ0 1 env0 f25Witness σ0) = some [98] := by decide
+  have h2 : firstStr (evalE call0 ρ0 1 env0 (RemoveIfExpression.processExpression strTruthy f25Witness) σ0)
+      = some [99] := by decide
+  cases hr : evalE call0 ρ0 1 env0 f25Witness σ0 with
+  | timeout => simp [hr, firstStr] at h1
+  | err v σ1 => simp [hr, firstStr] at h1
+  | ok vs σ1 =>
+    obtain ⟨σ2, h3⟩ := hfull strTruthy hsound f25Witness unitOps call0 ρ0 1 env0 σ0 σ1 vs hr
+    rw [hr] at h1; rw [h3] at h2
+    cases vs with
+    | nil => simp [firstStr] at h1
+    | cons v rest => cases v <;> simp_all [firstStr]
+
+example : RemoveIfExpression.processExpression strTruthy f25Witness =
+    .bin .or (.bin .and .false (.str [97]))
+      (.bin .or (.bin .and .true (.str [99])) (.bin .or (.bin .and .true (.str [98])) (.str [100]))) := rfl
+
+
+/-- one `elseif` is an if-expression in the else position -/
+theorem ifx_one_elif (c t c1 t1 e : Expr) (σ : State N) :
+    evalE call ρ k env (.ifx c t [(c1, t1)] e) σ = evalE call ρ k env (.ifx c t [] (.ifx c1 t1 [] e)) σ := by
+  simp only [evalE, evalElifs]
+  cases evalE call ρ k env c σ with
+  | ok cv σ1 =>
+    simp only [Res.bind]
+    by_cases ht : (first cv).truthy = true
+    · simp [ht]
+    · simp only [ht, Bool.false_eq_true, if_false]
+      cases evalE call ρ k env c1 σ1 with
+      | ok cv1 σ2 =>
+        simp only [Res.bind]
+        by_cases ht1 : (first cv1).truthy = true
+        · simp only [ht1, if_true]
+          cases evalE call ρ k env t1 σ2 <;> simp [Res.bind, first]
+        · simp only [ht1, Bool.false_eq_true, if_false]
+          cases evalE call ρ k env e σ2 <;> simp [Res.bind, first]
+      | err v σ2 => simp [Res.bind]
+      | timeout => simp [Res.bind]
+  | err v σ1 => simp [Res.bind]
+  | timeout => simp [Res.bind]
+
+/-- the else position of an if-expression is a congruence -/
+theorem ifx_congr_else (c t e e' : Expr) (h : ∀ σ, evalE call ρ k env e' σ = evalE call ρ k env e σ) (σ : State N) :
+    evalE call ρ k env (.ifx c t [] e') σ = evalE call ρ k env (.ifx c t [] e) σ := by
+  simp only [evalE, evalElifs, h]
+
+/-- **`remove_if_expression`, partial** (hypothesis `H`: at most one `elseif` — F25 — and every branch
+result known truthy, so that the `and`/`or` encoding is chosen): the hook's output has EXACTLY the
+denotation of the if-expression — conditions tested in order, each sub-expression evaluated at most
+once, result truncated to one value — in every context. `hst`/`hsts` (a branch result whose
+evaluation succeeds is truthy) is what C08's `truthy_sound` provides: see `ifexpr_partial_c08`. -/
+theorem ifexpr_partial (truthy : Expr → Bool)
+    (c t : Expr) (elifs : List (Expr × Expr)) (e : Expr) (hlen : elifs.length ≤ 1) (ht : truthy t = true)
+    (hts : ∀ p ∈ elifs, truthy p.2 = true)
+    (hst : ∀ σ vs σ', evalE call ρ k env t σ = .ok vs σ' → (first vs).truthy = true)
+    (hsts : ∀ p ∈ elifs, ∀ σ vs σ', evalE call ρ k env p.2 σ = .ok vs σ' → (first vs).truthy = true)
+    (σ : State N) :
+    evalE call ρ k env (RemoveIfExpression.processExpression truthy (.ifx c t elifs e)) σ
+      = evalE call ρ k env (.ifx c t elifs e) σ := by
+  match elifs, hlen, hts, hsts with
+  | [], _, _, _ =>
+    simp only [RemoveIfExpression.processExpression, RemoveIfExpression.foldBranches,
+      RemoveIfExpression.convertIfBranch, ht, if_true]
+    exact ifexpr_and_or_exact call ρ k env c t e hst σ
+  | [(c1, t1)], _, hts, hsts =>
+    have ht1 : truthy t1 = true := hts (c1, t1) (by simp)
+    simp only [RemoveIfExpression.processExpression, RemoveIfExpression.foldBranches,
+      RemoveIfExpression.convertIfBranch, ht, ht1, if_true]
+    rw [ifx_one_elif, ifexpr_and_or_exact call ρ k env c t _ hst σ]
+    exact ifx_congr_else call ρ k env c t _ _
+      (fun σ' => ifexpr_and_or_exact call ρ k env c1 t1 e (hsts (c1, t1) (by simp)) σ') σ
+
+/-- the verdict the driver computes: `Evaluator::evaluate(e).is_truthy().unwrap_or_default()` -/
+def evalTruthy (E : Evaluator.EvalOps N) (e : Expr) : Bool := (Evaluator.evaluate E e).isTruthy == some true
+
+/-- the same with the Lean model of darklua's static evaluator as the truthiness oracle (the function
+the driver runs), inside C08's hypothesis `h8` for the branch results (outside it the evaluator itself
+is wrong: C08 findings). -/
+theorem ifexpr_partial_c08 (E : Evaluator.EvalOps N) (A : C08.Agree N E)
+    (c t : Expr) (elifs : List (Expr × Expr)) (e : Expr) (hlen : elifs.length ≤ 1)
+    (ht : evalTruthy E t = true) (hts : ∀ p ∈ elifs, evalTruthy E p.2 = true)
+    (h8t : C08.h8 E t = true) (h8ts : ∀ p ∈ elifs, C08.h8 E p.2 = true) (σ : State N) :
+    evalE call ρ k env (RemoveIfExpression.processExpression (evalTruthy E) (.ifx c t elifs e)) σ
+      = evalE call ρ k env (.ifx c t elifs e) σ :=
+  ifexpr_partial call ρ k env (evalTruthy E) c t elifs e hlen ht hts
+    (fun σ vs σ' h => C08.truthy_sound A call ρ k env t σ σ' vs true h8t (by simpa [evalTruthy] using ht) h)
+    (fun p hp σ vs σ' h =>
+      C08.truthy_sound A call ρ k env p.2 σ σ' vs true (h8ts p hp) (by simpa [evalTruthy] using hts p hp) h) σ
+
+-- non-vacuity: one `elseif`, string results
+example : RemoveIfExpression.processExpression strTruthy (.ifx (.var "a") (.str [97]) [(.var "b", .str [98])] (.var "c"))
+    = .bin .or (.bin .and (.var "a") (.str [97])) (.bin .or (.bin .and (.var "b") (.str [98])) (.var "c")) := rfl
+
+
+/-! ### the table-boxed encoding `(c and {r} or {e})[1]` -/
+
+/-- results whose evaluation neither allocates nor depends on the heap of tables -/
+def isAtom : Expr → Bool
+  | .nil | .true | .false | .num _ | .str _ | .var _ => true
+  | _ => false
+
+theorem atom_eval (a : Expr) (ha : isAtom a = true) :
+    ∃ f : State N → Val N, (∀ σ, evalE call ρ k env a σ = .ok [f σ] σ) ∧
+      (∀ (σ : State N) T, f { σ with tables := T } = f σ) := by
+  cases a <;> simp [isAtom] at ha
+  · exact ⟨fun _ => .nil, fun _ => rfl, fun _ _ => rfl⟩
+  · exact ⟨fun _ => .bool true, fun _ => rfl, fun _ _ => rfl⟩
+  · exact ⟨fun _ => .bool false, fun _ => rfl, fun _ _ => rfl⟩
+  · rename_i b; exact ⟨fun _ => .num (N.ofBits b), fun _ => rfl, fun _ _ => rfl⟩
+  · rename_i b; exact ⟨fun _ => .str b, fun _ => rfl, fun _ _ => rfl⟩
+  · rename_i n; exact ⟨fun σ => lookupVar env n σ, fun _ => rfl, fun _ _ => rfl⟩
+
+theorem wrap_atom (a : Expr) (ha : isAtom a = true) : RemoveIfExpression.wrapInTable a = .table [.pos a] := by
+  cases a <;> simp [isAtom] at ha <;> rfl
+
+theorem listSet_append_last {α : Type} (xs : List α) (a b : α) : listSet (xs ++ [a]) xs.length b = xs ++ [b] := by
+  induction xs with
+  | nil => rfl
+  | cons x xs ih => simp [listSet, ih]
+
+theorem first_singleton (v : Val N) : first [v] = v := rfl
+
+/-- evaluating `{a}[1]`-style boxes: allocate, store, read back -/
+theorem tbl_truthy (t : Nat) : (Val.tbl t : Val N).truthy = true := rfl
+
+theorem box_read (hone : N.eq (N.ofNat 1) (N.ofBits 0x3FF0000000000000) = true) (v : Val N) (σ : State N) (d : Nat) :
+    ∃ tb, indexVal call ρ (d + 1) (.tbl σ.tables.length) (.num (N.ofBits 0x3FF0000000000000))
+        ((σ.allocTable { entries := [], mt := none }).2.rawSet σ.tables.length (.num (N.ofNat 1)) v)
+      = .ok v { σ with tables := σ.tables ++ [tb] } := by
+  cases v with
+  | nil =>
+    refine ⟨{ entries := [], mt := none }, ?_⟩
+    simp only [indexVal, State.allocTable, State.rawSet, State.rawGet, State.getTable, State.setTable, rawSetEntries,
+      rawGetEntries, listSet_append_last, State.metamethod, State.metaOf, rawEq, hone, List.getElem?_append_right,
+      Nat.le_refl, Nat.sub_self, List.getElem?_cons_zero, Option.getD_some, List.length_append, if_true]
+  | bool x =>
+    refine ⟨{ entries := [(.num (N.ofNat 1), .bool x)], mt := none }, ?_⟩
+    simp only [indexVal, State.allocTable, State.rawSet, State.rawGet, State.getTable, State.setTable, rawSetEntries,
+      rawGetEntries, listSet_append_last, State.metamethod, State.metaOf, rawEq, hone, List.getElem?_append_right,
+      Nat.le_refl, Nat.sub_self, List.getElem?_cons_zero, Option.getD_some, List.length_append, if_true]
+  | num x =>
+    refine ⟨{ entries := [(.num (N.ofNat 1), .num x)], mt := none }, ?_⟩
+    simp only [indexVal, State.allocTable, State.rawSet, State.rawGet, State.getTable, State.setTable, rawSetEntries,
+      rawGetEntries, listSet_append_last, State.metamethod, State.metaOf, rawEq, hone, List.getElem?_append_right,
+      Nat.le_refl, Nat.sub_self, List.getElem?_cons_zero, Option.getD_some, List.length_append, if_true]
+  | str x =>
+    refine ⟨{ entries := [(.num (N.ofNat 1), .str x)], mt := none }, ?_⟩
+    simp only [indexVal, State.allocTable, State.rawSet, State.rawGet, State.getTable, State.setTable, rawSetEntries,
+      rawGetEntries, listSet_append_last, State.metamethod, State.metaOf, rawEq, hone, List.getElem?_append_right,
+      Nat.le_refl, Nat.sub_self, List.getElem?_cons_zero, Option.getD_some, List.length_append, if_true]
+  | tbl x =>
+    refine ⟨{ entries := [(.num (N.ofNat 1), .tbl x)], mt := none }, ?_⟩
+    simp only [indexVal, State.allocTable, State.rawSet, State.rawGet, State.getTable, State.setTable, rawSetEntries,
+      rawGetEntries, listSet_append_last, State.metamethod, State.metaOf, rawEq, hone, List.getElem?_append_right,
+      Nat.le_refl, Nat.sub_self, List.getElem?_cons_zero, Option.getD_some, List.length_append, if_true]
+  | fn x =>
+    refine ⟨{ entries := [(.num (N.ofNat 1), .fn x)], mt := none }, ?_⟩
+    simp only [indexVal, State.allocTable, State.rawSet, State.rawGet, State.getTable, State.setTable, rawSetEntries,
+      rawGetEntries, listSet_append_last, State.metamethod, State.metaOf, rawEq, hone, List.getElem?_append_right,
+      Nat.le_refl, Nat.sub_self, List.getElem?_cons_zero, Option.getD_some, List.length_append, if_true]
+  | builtin x =>
+    refine ⟨{ entries := [(.num (N.ofNat 1), .builtin x)], mt := none }, ?_⟩
+    simp only [indexVal, State.allocTable, State.rawSet, State.rawGet, State.getTable, State.setTable, rawSetEntries,
+      rawGetEntries, listSet_append_last, State.metamethod, State.metaOf, rawEq, hone, List.getElem?_append_right,
+      Nat.le_refl, Nat.sub_self, List.getElem?_cons_zero, Option.getD_some, List.length_append, if_true]
+
+/-- **the table-boxed encoding on atomic branches** (the case it exists for: `nil` / `false` /
+variables as results): `(c and {r} or {e})[1]` returns exactly the value `if c then r else e` returns,
+after evaluating `c` once; the final state is the if-expression's plus ONE unreachable table (the box):
+exact up to that allocation. Needs a call-back budget `k ≥ 1` (the lowered form indexes a table) and
+`1 == 0x3FF0000000000000` in the number system. For branches that allocate themselves the table ids
+shift: that case needs the allocation-insensitive relation (`ifexpr_boxed_general`). -/
+theorem ifexpr_boxed_atoms (hone : N.eq (N.ofNat 1) (N.ofBits 0x3FF0000000000000) = true) (d : Nat)
+    (c r e : Expr) (hr : isAtom r = true) (he : isAtom e = true) (σ : State N) (cv : List (Val N)) (σ1 : State N)
+    (hc : evalE call ρ (d + 1) env c σ = .ok cv σ1) :
+    ∃ v tb, evalE call ρ (d + 1) env (.ifx c r [] e) σ = .ok [v] σ1 ∧
+      evalE call ρ (d + 1) env
+        (.index (.paren (.bin .or (.bin .and c (RemoveIfExpression.wrapInTable r)) (RemoveIfExpression.wrapInTable e)))
+          numOne) σ = .ok [v] { σ1 with tables := σ1.tables ++ [tb] } := by
+  obtain ⟨fr, hfr, hfr'⟩ := atom_eval call ρ (d + 1) env r hr
+  obtain ⟨fe, hfe, hfe'⟩ := atom_eval call ρ (d + 1) env e he
+  rw [wrap_atom r hr, wrap_atom e he]
+  by_cases ht : (first cv).truthy = true
+  · obtain ⟨tb, hb⟩ := box_read call ρ hone (fr σ1) σ1 d
+    refine ⟨fr σ1, tb, ?_, ?_⟩
+    · simp only [evalE, hc, Res.bind, ht, if_true, hfr, first_singleton]
+    · have h1 := hfr (σ1.allocTable { entries := [], mt := none }).2
+      have h2 : fr (σ1.allocTable { entries := [], mt := none }).2 = fr σ1 := hfr' σ1 _
+      simp only [evalE, evalEntries, hc, Res.bind, ht, if_true, h1, h2, setMany, first_singleton, numOne, tbl_truthy]
+      rw [show (σ1.allocTable { entries := [], mt := none }).1 = σ1.tables.length from rfl, hb]
+  · have ht' : (first cv).truthy = false := by simpa using ht
+    obtain ⟨tb, hb⟩ := box_read call ρ hone (fe σ1) σ1 d
+    refine ⟨fe σ1, tb, ?_, ?_⟩
+    · simp only [evalE, evalElifs, hc, Res.bind, ht', Bool.false_eq_true, if_false, hfe, first_singleton]
+    · have h1 := hfe (σ1.allocTable { entries := [], mt := none }).2
+      have h2 : fe (σ1.allocTable { entries := [], mt := none }).2 = fe σ1 := hfe' σ1 _
+      simp only [evalE, evalEntries, hc, Res.bind, ht', Bool.false_eq_true, if_false, h1, h2, setMany,
+        first_singleton, numOne, tbl_truthy, if_true]
+      rw [show (σ1.allocTable { entries := [], mt := none }).1 = σ1.tables.length from rfl, hb]
+
+/-- … and when the condition fails or runs out of budget, so does the lowered form, identically. -/
+theorem ifexpr_boxed_cond_fails (c tr te : Expr) (σ : State N) (d : Nat)
+    (hc : ∀ cv σ1, evalE call ρ (d + 1) env c σ ≠ .ok cv σ1) :
+    evalE call ρ (d + 1) env (.index (.paren (.bin .or (.bin .and c tr) te)) numOne) σ
+      = (evalE call ρ (d + 1) env c σ).bind fun _ σ' => .ok [] σ' := by
+  cases h : evalE call ρ (d + 1) env c σ with
+  | ok cv σ1 => exact absurd h (hc cv σ1)
+  | err x σ1 => simp [evalE, h, Res.bind]
+  | timeout => simp [evalE, h, Res.bind]
+
+/-- the general statement (branches that may allocate): equal observable outcome of whole programs;
+to be proved with the allocation-insensitive relation (in progress elsewhere) — NOT proved here,
+covered by the execution oracle. -/
+def ifexpr_boxed_general : Prop :=
+  ∀ (truthy : Expr → Bool) (b : Block) (N : NumOps) (ρ : ExtOracle N) (n : Nat) (externs : List String),
+    (∀ r, truthy r = false) →
+    runProgram ρ n externs (RemoveIfExpression.apply truthy b) = runProgram ρ n externs b ∨
+      runProgram ρ n externs b = .timeout
+
+
+/-! ## `remove_floor_division` -/
+
+/-- **floor division on numbers** (operands that are numbers or strings convertible to numbers):
+`math.floor(l / r)` returns exactly what `l // r` returns, in exactly the same final state, with `l`
+then `r` evaluated once each — PROVIDED (`hlaw`) the number system computes `//` as the floor of the
+quotient (true of IEEE doubles and of Luau's definition), (`hloc`/`hmath`) `math` is not a local here
+and the global `math.floor` is the library function when the expression is entered (the rule uses
+`__DARKLUA_MATH_FLOOR` when a local `math` is in scope), and the call-back budget is at least 2
+(the lowered form performs a library call). -/
+theorem floordiv_on_numbers (hlaw : ∀ a b, N.idiv a b = N.floor (N.div a b)) (d : Nat) (l r : Expr)
+    (σ σ1 σ2 : State N) (vs ws : List (Val N)) (x y : N.F) (m : Nat)
+    (hloc : lookupAssoc "math" env.locals = none) (hmath : σ.getGlobal "math" = .tbl m)
+    (hfloor : σ.rawGet m (strVal "floor") = .builtin "math.floor")
+    (hl : evalE call ρ (d + 2) env l σ = .ok vs σ1) (hr : evalE call ρ (d + 2) env r σ1 = .ok ws σ2)
+    (hx : toNumber? (first vs) = some x) (hy : toNumber? (first ws) = some y) :
+    evalE call ρ (d + 2) env (.call (.field (.var "math") "floor") none .tuple [.bin .div l r]) σ
+        = .ok [.num (N.idiv x y)] σ2 ∧
+      evalE call ρ (d + 2) env (.bin .idiv l r) σ = .ok [.num (N.idiv x y)] σ2 := by
+  constructor
+  · simp only [evalE, evalEs, lookupVar, hloc, hmath, Res.bind, first_singleton, indexVal, hfloor, hl, hr, binopVal,
+      hx, hy, arithPrim, callVal]
+    simp [libNames, libCall, first, toNumber?, hlaw]
+  · simp only [evalE, hl, hr, Res.bind, binopVal, hx, hy, arithPrim]
+
+
+open Rules.Witness in
+/-- did the evaluation succeed? (a kernel-decidable projection) -/
+def isOk {α : Type} : Res unitOps α → Bool
+  | .ok _ _ => true
+  | _ => false
+
+def isMathFloor {N : NumOps} : Val N → Bool
+  | .builtin "math.floor" => true
+  | _ => false
+
+/-- the full claim for expressions: wherever `l // r` succeeds, `math.floor(l / r)` succeeds with the
+same values (with `math.floor` being the library function) -/
+def floordiv_full : Prop :=
+  ∀ (l r : Expr) (N : NumOps) (call : CallFn N) (ρ : ExtOracle N) (k : Nat) (env : Env N) (σ σ' : State N)
+    (vs : List (Val N)) (m : Nat), lookupAssoc "math" env.locals = none → σ.getGlobal "math" = .tbl m →
+    isMathFloor (σ.rawGet m (strVal "floor")) = true →
+    evalE call ρ k env (.bin .idiv l r) σ = .ok vs σ' →
+    ∃ σ'', evalE call ρ k env (.call (.field (.var "math") "floor") none .tuple [.bin .div l r]) σ = .ok vs σ''
+
+open Rules.Witness in
+/-- a state with `math.floor`, an external function `f`, and an object `o` whose metatable has only `__idiv = f` -/
+def σidiv : State unitOps :=
+  { globals := [("o", .tbl 0), ("math", .tbl 1), ("f", .builtin "f")], cells := [],
+    tables := [{ entries := [], mt := some 2 },
+               { entries := [(strVal "floor", .builtin "math.floor")], mt := none },
+               { entries := [(strVal "__idiv", .builtin "f")], mt := none }],
+    closures := [], trace := [] }
+
+open Rules.Witness in
+/-- **F26** (inherent to the lowering): an operand with an `__idiv` metamethod. `o // 0` calls
+`__idiv` and succeeds; `math.floor(o / 0)` looks for `__div`, finds none and raises. -/
+theorem floordiv_full_false : ¬ floordiv_full := by
+  intro hfull
+  have h1 : isOk (evalE call0 ρ0 3 env0 (.bin .idiv (.var "o") (.num 0)) σidiv) = true := by decide +kernel
+  have h2 : isOk (evalE call0 ρ0 3 env0
+      (.call (.field (.var "math") "floor") none .tuple [.bin .div (.var "o") (.num 0)]) σidiv) = false := by decide +kernel
+  cases hr : evalE call0 ρ0 3 env0 (.bin .idiv (.var "o") (.num 0)) σidiv with
+  | timeout => simp [hr, isOk] at h1
+  | err v σ1 => simp [hr, isOk] at h1
+  | ok vs σ1 =>
+    obtain ⟨σ2, h3⟩ := hfull (.var "o") (.num 0) unitOps call0 ρ0 3 env0 σidiv σ1 vs 1 rfl rfl (by decide +kernel) hr
+    rw [h3] at h2
+    simp [isOk] at h2
+
+/-- the full claim for the statement hook (`x //= y` handed to the nested compound-assignment
+visitor): wherever the statement succeeds, the hook's output succeeds -/
+def floordiv_stmt_full : Prop :=
+  ∀ (st : Stmt) (s : RemoveFloorDivision.State) (N : NumOps) (call : CallFn N) (ρ : ExtOracle N) (k : Nat) (env : Env N)
+    (σ σ' : State N) (c : Ctl N), execS call ρ k env st σ = .ok c σ' →
+    ∃ c' σ'', execS call ρ k env (RemoveFloorDivision.processStatement st s).1 σ = .ok c' σ''
+
+/-- `t.a.b //= __DARKLUA_VAR` -/
+def f28Witness : Stmt := .cassign .idiv (.field (.field (.var "t") "a") "b") (.var "__DARKLUA_VAR")
+
+open Rules.Witness in
+/-- a state where `t = {a = {b = <number>}}` and the USER's local `__DARKLUA_VAR` is a number -/
+def σ28 : State unitOps :=
+  { globals := [("t", .tbl 0)], cells := [.num ()],
+    tables := [{ entries := [(strVal "a", .tbl 1)], mt := none }, { entries := [(strVal "b", .num ())], mt := none }],
+    closures := [], trace := [] }
+
+open Rules.Witness in
+def env28 : Env unitOps := ⟨[("__DARKLUA_VAR", 0)], []⟩
+
+example : (RemoveFloorDivision.processStatement f28Witness {}).1 =
+    .doBlock (.mk [.localAssign .loc [.mk "__DARKLUA_VAR" none] [.field (.var "t") "a"],
+      .assign [.field (.var "__DARKLUA_VAR") "b"]
+        [.bin .idiv (.field (.var "__DARKLUA_VAR") "b") (.var "__DARKLUA_VAR")]] none) := by rfl
+
+open Rules.Witness in
+/-- **F28**: the nested visitor starts from a FRESH identifier tracker, so its temporary
+`__DARKLUA_VAR` captures the user's local of that name read by the right-hand side: the original
+statement divides two numbers, the lowered one divides a number by the table `t.a` and raises. -/
+theorem floordiv_stmt_full_false : ¬ floordiv_stmt_full := by
+  intro hfull
+  have h1 : isOk (execS call0 ρ0 3 env28 f28Witness σ28) = true := by decide +kernel
+  have h2 : isOk (execS call0 ρ0 3 env28 (RemoveFloorDivision.processStatement f28Witness {}).1 σ28) = false := by
+    decide +kernel
+  cases hr : execS call0 ρ0 3 env28 f28Witness σ28 with
+  | timeout => simp [hr, isOk] at h1
+  | err v σ1 => simp [hr, isOk] at h1
+  | ok c σ1 =>
+    obtain ⟨c', σ2, h3⟩ := hfull f28Witness {} unitOps call0 ρ0 3 env28 σ28 σ1 c hr
+    rw [h3] at h2
+    simp [isOk] at h2
+
+/-! ## `remove_continue` -/
+
+/-- the full claim: a program whose `continue`s are all inside loops still runs to completion wherever
+the original does -/
+def continue_full : Prop :=
+  ∀ (b : Block), C07.continueInLoops b = true →
+  ∀ (N : NumOps) (call : CallFn N) (ρ : ExtOracle N) (k : Nat) (env : Env N) (σ σ' : State N) (c : Ctl N),
+    execB call ρ k env b σ = .ok c σ' → ∃ c' σ'', execB call ρ k env (RemoveContinue.apply b) σ = .ok c' σ''
+
+/-- `repeat local x = true; if x then continue end until x` -/
+def f9Witness : Block :=
+  .mk [.repeat_ (.mk [.localAssign .loc [.mk "x" none] [.true],
+                      .ifs [(.var "x", .mk [] (some .cont))] none] none) (.var "x")] none
+
+open Rules.Witness in
+/-- **F9**: after the rule the body sits in an inner `repeat … until true` whose scope ends before the
+outer `until x` is evaluated: `x` is then the GLOBAL `x` (nil), the loop never ends (here: the lowered
+program exhausts every budget while the original stops after one iteration). -/
+theorem continue_full_false : ¬ continue_full := by
+  intro hfull
+  have h0 : C07.continueInLoops f9Witness = true := by decide +kernel
+  have h1 : isOk (execB call0 ρ0 2 env0 f9Witness σ0) = true := by decide +kernel
+  have h2 : isOk (execB call0 ρ0 2 env0 (RemoveContinue.apply f9Witness) σ0) = false := by decide +kernel
+  cases hr : execB call0 ρ0 2 env0 f9Witness σ0 with
+  | timeout => simp [hr, isOk] at h1
+  | err v σ1 => simp [hr, isOk] at h1
+  | ok c σ1 =>
+    obtain ⟨c', σ2, h3⟩ := hfull f9Witness h0 unitOps call0 ρ0 2 env0 σ0 σ1 c hr
+    rw [h3] at h2
+    simp [isOk] at h2
+
+
+/-! ## `remove_interpolated_string` (relative to the semantics' `tostring` / `string.format`) -/
+
+theorem evalSegs_empty : ∀ (segs : List Seg) (acc : List UInt8) (σ : State N),
+    RemoveInterpolatedString.isEmpty segs = true → evalSegs call ρ k env segs acc σ = .ok acc σ
+  | [], acc, σ, _ => rfl
+  | .s b :: rest, acc, σ, h => by
+    simp only [RemoveInterpolatedString.isEmpty, List.all_cons, Bool.and_eq_true, List.isEmpty_iff] at h
+    have ih := evalSegs_empty rest (acc ++ b) σ (by simpa [RemoveInterpolatedString.isEmpty] using h.2)
+    rw [h.1, List.append_nil] at ih
+    simp only [evalSegs, h.1, List.append_nil, ih]
+  | .v e :: rest, acc, σ, h => by simp [RemoveInterpolatedString.isEmpty] at h
+
+/-- an interpolated string without value and without text ⇒ `""`: exact. -/
+theorem interp_empty_exact (strategy : RemoveInterpolatedString.Strategy) (segs : List Seg)
+    (s : RemoveInterpolatedString.State) (h : RemoveInterpolatedString.isEmpty segs = true) (σ : State N) :
+    evalE call ρ k env (RemoveInterpolatedString.replaceWith strategy segs s).1 σ
+      = evalE call ρ k env (.interp segs) σ := by
+  simp only [RemoveInterpolatedString.replaceWith, h, if_true, evalE, evalSegs_empty call ρ k env segs [] σ h, Res.bind]
+
+/-- text only ⇒ the plain string: exact. -/
+theorem interp_text_exact (strategy : RemoveInterpolatedString.Strategy) (b : List UInt8)
+    (s : RemoveInterpolatedString.State) (σ : State N) :
+    evalE call ρ k env (RemoveInterpolatedString.replaceWith strategy [.s b] s).1 σ
+      = evalE call ρ k env (.interp [.s b]) σ := by
+  unfold RemoveInterpolatedString.replaceWith
+  split
+  · rename_i h
+    simp only [RemoveInterpolatedString.isEmpty, List.all_cons, List.all_nil, Bool.and_true, List.isEmpty_iff] at h
+    subst h
+    simp [evalE, evalSegs, Res.bind]
+  · simp [evalE, evalSegs, Res.bind]
+
+/-- what `` `{e}` `` means, with the call-back budget of the inner `tostring` made explicit -/
+def interpOne (call : CallFn N) (ρ : ExtOracle N) (k inner : Nat) (env : Env N) (e : Expr) (σ : State N) :
+    Res N (List (Val N)) :=
+  (evalE call ρ k env e σ).bind fun vs σ1 =>
+    (tostringVal call ρ inner (first vs) σ1).bind fun s σ2 => .ok [.str s] σ2
+
+/-- **one value** `` `{e}` `` ⇒ `tostring(e)`: `e` is evaluated once, then `tostring` (honouring
+`__tostring`) is applied to its first value — exactly the interpolation, except that the library call
+spends two levels of the call-back budget (`d` instead of `d + 2` for a `__tostring` metamethod that
+itself re-enters library code): identical whenever the value has no `__tostring` metamethod, or its
+metamethod does not exhaust the smaller budget. Needs `tostring` to be the library function here
+(`hloc`/`hglob`; the rule uses `__DARKLUA_TO_STR` when a local `tostring` is in scope). -/
+theorem interp_single_value (d : Nat) (e : Expr) (σ : State N)
+    (hloc : lookupAssoc "tostring" env.locals = none)
+    (hglob : σ.getGlobal "tostring" = .builtin "tostring") :
+    evalE call ρ (d + 2) env (.interp [.v e]) σ = interpOne call ρ (d + 2) (d + 2) env e σ ∧
+      evalE call ρ (d + 2) env (.call (.var "tostring") none .tuple [e]) σ = interpOne call ρ (d + 2) d env e σ := by
+  constructor
+  · simp only [evalE, evalSegs, interpOne, List.nil_append]
+    cases evalE call ρ (d + 2) env e σ with
+    | ok vs σ1 =>
+      simp only [Res.bind]
+      cases tostringVal call ρ (d + 2) (first vs) σ1 <;> simp [Res.bind]
+    | err x σ1 => simp [Res.bind]
+    | timeout => simp [Res.bind]
+  · simp only [evalE, evalEs, interpOne, lookupVar, hloc, hglob, Res.bind, first_singleton]
+    cases evalE call ρ (d + 2) env e σ with
+    | ok vs σ1 =>
+      simp only [callVal]
+      simp [libNames, libCall, Res.bind, first]
+    | err x σ1 => simp
+    | timeout => simp
+
+/-- the general case (two or more segments ⇒ `string.format("…%s…", tostring(v1), …)` with `%` doubled):
+same values and same order of effects; the format string is scanned with one budget unit per byte by
+the semantics' `string.format`, so equality holds for budgets above the length of the format string.
+NOT proved here (needs the induction over segments against `Sem.formatAux`); covered by the execution
+oracle (texts with `%`, `%%`, `%s`, `%d`, every value kind, `__tostring` objects). -/
+def interp_format_general : Prop :=
+  ∀ (segs : List Seg) (s : RemoveInterpolatedString.State) (N : NumOps) (call : CallFn N) (ρ : ExtOracle N)
+    (env : Env N) (σ : State N), s.tracker.isUsed "string" = false → s.tracker.isUsed "tostring" = false →
+  ∃ k0, ∀ k ≥ k0, ∀ vs σ', evalE call ρ k env (.interp segs) σ = .ok vs σ' →
+    evalE call ρ k env (RemoveInterpolatedString.replaceWith .string segs s).1 σ = .ok vs σ'
+
+
+/-! ## statements that wait for the allocation-insensitive relation
+
+The rewrites below introduce locals / tables / change closure bodies: the states of original and
+lowered program are related by a heap bijection, not equal, so the exact-denotation method above does
+not apply; they are stated here at the level of observable outcomes (`Sem.runProgram`: returned values
+and external-call trace) and are currently supported by the execution oracle only. -/
+
+mutual
+  /-- no `repeat … until` statement anywhere (function bodies and `typeof(…)` included) -/
+  def noRepeatTy : Ty → Bool
+    | .mk _ kids => noRepeatTys kids
+    | .typeof e => noRepeatE e
+  def noRepeatTys : List Ty → Bool
+    | [] => true
+    | t :: ts => noRepeatTy t && noRepeatTys ts
+  def noRepeatOTy : Option Ty → Bool
+    | none => true
+    | some t => noRepeatTy t
+  def noRepeatTN : TName → Bool
+    | .mk _ ty => noRepeatOTy ty
+  def noRepeatTNs : List TName → Bool
+    | [] => true
+    | t :: ts => noRepeatTN t && noRepeatTNs ts
+  def noRepeatE : Expr → Bool
+    | .nil | .true | .false | .vararg | .num _ | .str _ | .var _ => true
+    | .paren e => noRepeatE e
+    | .un _ e => noRepeatE e
+    | .field e _ => noRepeatE e
+    | .bin _ l r => noRepeatE l && noRepeatE r
+    | .index l r => noRepeatE l && noRepeatE r
+    | .call f _ _ args => noRepeatE f && noRepeatEs args
+    | .fn body => noRepeatF body
+    | .table es => noRepeatEntries es
+    | .ifx c t elifs e => noRepeatE c && noRepeatE t && noRepeatPairs elifs && noRepeatE e
+    | .interp segs => noRepeatSegs segs
+    | .cast e ty => noRepeatE e && noRepeatTy ty
+    | .inst e tys => noRepeatE e && noRepeatTys tys
+  def noRepeatEs : List Expr → Bool
+    | [] => true
+    | e :: es => noRepeatE e && noRepeatEs es
+  def noRepeatOE : Option Expr → Bool
+    | none => true
+    | some e => noRepeatE e
+  def noRepeatPairs : List (Expr × Expr) → Bool
+    | [] => true
+    | (a, b) :: rest => noRepeatE a && noRepeatE b && noRepeatPairs rest
+  def noRepeatEntry : Entry → Bool
+    | .pos v => noRepeatE v
+    | .named _ v => noRepeatE v
+    | .keyed k v => noRepeatE k && noRepeatE v
+  def noRepeatEntries : List Entry → Bool
+    | [] => true
+    | e :: es => noRepeatEntry e && noRepeatEntries es
+  def noRepeatSeg : Seg → Bool
+    | .s _ => true
+    | .v e => noRepeatE e
+  def noRepeatSegs : List Seg → Bool
+    | [] => true
+    | e :: es => noRepeatSeg e && noRepeatSegs es
+  def noRepeatF : FnBody → Bool
+    | .mk params _ varTy ret _ _ body => noRepeatTNs params && noRepeatOTy varTy && noRepeatOTy ret && noRepeatB false body
+  def noRepeatS (inLoop : Bool) : Stmt → Bool
+    | .assign ts vs => noRepeatEs ts && noRepeatEs vs
+    | .cassign _ t v => noRepeatE t && noRepeatE v
+    | .callStmt c => noRepeatE c
+    | .doBlock b => noRepeatB inLoop b
+    | .function name _ body => !name.isEmpty && noRepeatF body   -- (a `FunctionName` always has a root)
+    | .localFn _ _ body => noRepeatF body
+    | .typeFn _ _ body => noRepeatF body
+    | .gfor names vs body => noRepeatTNs names && noRepeatEs vs && noRepeatB true body
+    | .nfor name a b step body => noRepeatTN name && noRepeatE a && noRepeatE b && noRepeatOE step && noRepeatB true body
+    | .ifs branches els => noRepeatBranches inLoop branches && noRepeatOB inLoop els
+    | .localAssign _ names vs => noRepeatTNs names && noRepeatEs vs
+    | .repeat_ _ _ => false
+    | .while_ c b => noRepeatE c && noRepeatB true b
+    | .typeDecl _ _ ty => noRepeatTy ty
+  def noRepeatBranches (inLoop : Bool) : List (Expr × Block) → Bool
+    | [] => true
+    | (c, b) :: rest => noRepeatE c && noRepeatB inLoop b && noRepeatBranches inLoop rest
+  def noRepeatSs (inLoop : Bool) : List Stmt → Bool
+    | [] => true
+    | s :: ss => noRepeatS inLoop s && noRepeatSs inLoop ss
+  def noRepeatL (inLoop : Bool) : Last → Bool
+    | .ret es => noRepeatEs es
+    | .brk => true
+    | .cont => true
+  def noRepeatOL (inLoop : Bool) : Option Last → Bool
+    | none => true
+    | some l => noRepeatL inLoop l
+  def noRepeatOB (inLoop : Bool) : Option Block → Bool
+    | none => true
+    | some b => noRepeatB inLoop b
+  def noRepeatB (inLoop : Bool) : Block → Bool
+    | .mk stmts last => noRepeatSs inLoop stmts && noRepeatOL inLoop last
+end
+
+/-- `remove_compound_assignment` with temporaries (`p.f op= v`, `p[k] op= v` with non-trivial `p`/`k`):
+prefix, key, old value, right-hand side evaluated once each, in that order — same outcome. (The
+temporaries are `__DARKLUA_VAR…` names the tracker found unused among the declared locals in scope.) -/
+def compound_refines : Prop :=
+  ∀ (b : Block) (N : NumOps) (ρ : ExtOracle N) (n : Nat) (externs : List String), wfB b = true →
+    runProgram ρ n externs (RemoveCompoundAssign.apply b) = runProgram ρ n externs b
+
+/-- `remove_continue` on programs without `repeat` loops (F9 is about `repeat`): flag + inner
+`repeat … until true` + conditional `break`, for `while` / numeric `for` / generic `for`, bodies that
+also `break` or `return` included. -/
+def continue_refines_partial : Prop :=
+  ∀ (b : Block) (N : NumOps) (ρ : ExtOracle N) (n : Nat) (externs : List String), wfB b = true →
+    C07.continueInLoops b = true → noRepeatB false b = true →
+    runProgram ρ n externs (RemoveContinue.apply b) = runProgram ρ n externs b
+
+/-- `remove_types`: erasing annotations, casts and instantiations (closure bodies differ syntactically) -/
+def types_refines : Prop :=
+  ∀ (b : Block) (N : NumOps) (ρ : ExtOracle N) (n : Nat) (externs : List String), wfB b = true →
+    runProgram ρ n externs (RemoveTypes.apply b) = runProgram ρ n externs b
+
+/-- `remove_attribute` -/
+def attribute_refines : Prop :=
+  ∀ (b : Block) (N : NumOps) (ρ : ExtOracle N) (n : Nat) (externs : List String),
+    runProgram ρ n externs (RemoveAttribute.apply b) = runProgram ρ n externs b
 
 end DarkluaModel.C06
